@@ -308,7 +308,10 @@ func runC16(c *Ctx) {
 		// the programs in between run on the first one, after the second has been opened
 		w := w
 		if i%4 == 3 && mode != "xa-outside" {
-			w = GetATWorldB()
+			w = GetATWorldB() // same database name on another server
+			if i%8 == 7 {
+				w = GetATWorldC() // another database name on a third server
+			}
 		}
 		sc.DBName = w.DBName
 		// the statements spell the table name in different ways (as created, UPPER, `quoted`, db.table, `db`.`table`)
@@ -319,7 +322,7 @@ func runC16(c *Ctx) {
 				}
 			}
 		}
-		c.Out.Count("datasource." + w.DBName)
+		c.Out.Count("datasource." + w.DBName + w.Tag)
 		w.SetUndoConfig(cs.Ser, cs.Comp, cs.Validate, cs.OnlyCare)
 		// ---- identical tables for the proxy and for the bare driver
 		tA, tB := sc.Table, sc.Table+"b"
